@@ -49,6 +49,8 @@ def check(ctx):
     # the bucket count is a tuning parameter: the bucket / bitmap scan must be right for every table size, not only for
     # the sizes whose bitmap is a whole number of 64-bucket words
     import_rules(ctx, "c04", {"scan-compensation", "layout-agreement"})
+    # the buffer sizes are tuning parameters: a transfer that may stop at a buffer-chunk boundary makes results depend on them
+    import_rules(ctx, "c05", {"stored-length-read"})
 
 
 def _user_fns_only(hits):
